@@ -776,3 +776,34 @@ impl Drop for ObjectReceiver {
         }
     }
 }
+
+#[cfg(feature = "verif-hooks")]
+impl ObjectReceiver {
+    pub(crate) fn verif_snapshot(&self) -> crate::verif::ObjectSnapshot {
+        crate::verif::ObjectSnapshot {
+            toi: self.toi,
+            state: match self.state {
+                State::Receiving => 0,
+                State::Completed => 1,
+                State::Interrupted => 2,
+                State::Error => 3,
+            },
+            cache_pkts: self.cache.len(),
+            cache_bytes: self.cache.iter().map(|p| p.data.len()).sum(),
+            cache_counter: self.cache_size,
+            nb_blocks: self.blocks.len(),
+            blocks_offset: self.blocks_offset,
+            nb_allocated_blocks: self.nb_allocated_blocks,
+            allocated_bytes: self.total_allocated_blocks_size,
+            writer: match self.object_writer.as_ref().map(|w| w.state) {
+                None => 0,
+                Some(ObjectWriterSessionState::Idle) => 1,
+                Some(ObjectWriterSessionState::Opened) => 2,
+                Some(ObjectWriterSessionState::Closed) => 3,
+                Some(ObjectWriterSessionState::Error) => 4,
+            },
+            fdt_instance_id: self.fdt_instance_id,
+            has_oti: self.oti.is_some(),
+        }
+    }
+}
